@@ -334,6 +334,12 @@ class SimpleResultMetaData(ResultMetaData):
     def __getstate__(self) -> Dict[str, Any]:
         return {
             "_keys": self._keys,
+            # keep the additional string lookup keys of each column
+            # (Column.key, table-qualified label), as a pickled Row does
+            "_extra": [
+                tuple(e for e in self._keymap[key][2] if isinstance(e, str))
+                for key in self._keys
+            ],
             "_translated_indexes": self._translated_indexes,
             "_ambiguous_keys": self._ambiguous_keys,
         }
@@ -346,6 +352,7 @@ class SimpleResultMetaData(ResultMetaData):
             _translated_indexes = _tuplefilter = None
         self.__init__(  # type: ignore[misc]
             state["_keys"],
+            extra=state.get("_extra"),
             _translated_indexes=_translated_indexes,
             _tuplefilter=_tuplefilter,
             _ambiguous_keys=state.get("_ambiguous_keys"),
